@@ -312,3 +312,56 @@ Lemma assignable_not_symmetric :
   assignable TString TDynBytes = true /\ assignable TDynBytes TString = false /\
   assignable (TTxn TxPay) (TTxn TxAny) = true /\ assignable (TTxn TxAny) (TTxn TxPay) = false.
 Proof. vm_compute. repeat split; reflexivity. Qed.
+
+(* ------------------------------------------------------------------------------------------ *)
+(* 7. the direct-assignment gates (dst.set(value))                                             *)
+(* ------------------------------------------------------------------------------------------ *)
+Lemma py_eq_sound_sym : forall a b, py_eq a b = true -> canon b = canon a.
+Proof. intros a b H. symmetry. apply py_eq_sound. exact H. Qed.
+
+Theorem set_admits_same_layout : forall src dst,
+    set_admits src dst = true -> canon src = canon (set_target dst).
+Proof.
+  intros src dst H.
+  destruct dst as [| | n | | | e n | e | nm ts | n | | k | k]; cbn [set_admits set_target] in *;
+    try discriminate H.
+  - apply py_eq_sound; exact H.
+  - apply andb_true_iff in H as [Hi Hs]. apply N.eqb_eq in Hs.
+    destruct src as [| | m | | | e m | e | [i|] ts | m | | k | k]; try (vm_compute in Hi; discriminate Hi);
+      try (destruct k; vm_compute in Hi; discriminate Hi); cbn [uint_size] in Hs; subst; reflexivity.
+  - apply andb_true_iff in H as [Hi Hs]. apply N.eqb_eq in Hs.
+    destruct src as [| | m | | | e m | e | [i|] ts | m | | k | k]; try (vm_compute in Hi; discriminate Hi);
+      try (destruct k; vm_compute in Hi; discriminate Hi); cbn [uint_size] in Hs; subst; reflexivity.
+  - apply orb_true_iff in H as [H|H]; apply py_eq_sound in H; exact H.
+  - apply orb_true_iff in H as [H|H]; apply py_eq_sound in H; exact H.
+  - apply py_eq_sound_sym; exact H.
+  - apply py_eq_sound_sym; exact H.
+  - destruct ts as [|x [|y r]]; try discriminate H.
+    apply andb_true_iff in H as [H _]. apply py_eq_sound_sym; exact H.
+  - apply py_eq_sound_sym; exact H.
+  - apply py_eq_sound_sym; exact H.
+Qed.
+
+Theorem elem_admits_same_layout : forall src slot, elem_admits src slot = true -> canon src = canon slot.
+Proof. intros src slot H. apply andb_true_iff in H as [H _]. apply py_eq_sound_sym. exact H. Qed.
+
+Theorem computed_admits_same_layout : forall src dst,
+    computed_admits src dst = true -> canon src = canon dst.
+Proof.
+  intros src dst H.
+  destruct dst; cbn [computed_admits] in H; try discriminate H;
+    try (apply py_eq_sound_sym; exact H).
+  apply orb_true_iff in H as [H|H]; apply py_eq_sound in H; exact H.
+Qed.
+
+(* the three gates together, with the encoding consequence *)
+Theorem set_gates_same_encoding : forall src dst,
+    (set_admits src dst = true -> forall v, arc4_encode src v = arc4_encode (set_target dst) v) /\
+    (elem_admits src dst = true -> forall v, arc4_encode src v = arc4_encode dst v) /\
+    (computed_admits src dst = true -> forall v, arc4_encode src v = arc4_encode dst v).
+Proof.
+  intros src dst. repeat split; intros H v; apply same_layout_same_encoding.
+  - apply set_admits_same_layout; exact H.
+  - apply elem_admits_same_layout; exact H.
+  - apply computed_admits_same_layout; exact H.
+Qed.
